@@ -117,7 +117,7 @@ def perturb_corpus(ck, files, seed, per_file):
                 out.append(text[last:s])
                 # insert at the start of the gap: the existing gap (with its own comments) follows
                 kind = rng.choice(kinds)
-                if prevtype in ("PATH", "REGEXP1", "REGEXP2") and kind in ("CCT", "CCMLT"):
+                if prevtype in ("PATH", "REGEXP1", "REGEXP2") and kind in ("CCT", "CCMLT", "CCSTARS"):
                     kind = "CC"      # "/*" glued to an unquoted path / regex is lexically part of it: not "between tokens"
                 out.append(surface.SEPS[kind])
                 last = s
